@@ -566,7 +566,16 @@ fn present_crafted(w: &mut World, step: usize) {
     return;
   }
   let (frag, _) = p.methods[ctx::choose(p.methods.len())].clone();
-  let kind = ["holder_mismatch", "id_mismatch", "exp_out_of_range", "iss_not_did", "vp_id_without_jti", "nbf_and_iat", "kid_names_no_did_of_the_document"][ctx::choose(7)];
+  let kind = [
+    "holder_mismatch",
+    "id_mismatch",
+    "exp_out_of_range",
+    "iss_not_did",
+    "vp_id_without_jti",
+    "nbf_and_iat",
+    "kid_names_no_did_of_the_document",
+    "issuance_time_not_an_integer",
+  ][ctx::choose(8)];
   let now_h = w.clock.now + w.parties[h].skew;
   let mut claims = serde_json::json!({
     "iss": p.did,
@@ -586,6 +595,18 @@ fn present_crafted(w: &mut World, step: usize) {
       claims["iat"] = Value::from(now_h - 300);
     }
     "kid_names_no_did_of_the_document" => {}
+    "issuance_time_not_an_integer" => {
+      // a NumericDate far in the future that is not a JSON integer (RFC 7519 allows fractions), or an integer nbf in
+      // the future next to an ill-typed iat: the token is not yet valid, or not well formed - never acceptable
+      match ctx::choose(3) {
+        0 => claims["nbf"] = serde_json::json!(4102444800.5f64),
+        1 => {
+          claims["nbf"] = Value::from(now_h + 1_000_000);
+          claims["iat"] = serde_json::json!(1700000000.25f64);
+        }
+        _ => claims["nbf"] = Value::from("4102444800"),
+      }
+    }
     _ => claims["iss"] = "https://holder.example/".into(),
   }
   let mut sopts = JwsSignatureOptions::default();
@@ -1492,7 +1513,17 @@ fn validate_presentation(w: &mut World, step: usize) {
               match (&p.payload, truth) {
                 (Some(c), Some(tp)) => {
                   let iss = c.get("iss").and_then(|i| i.as_str()).unwrap_or("");
-                  if !is_did(iss) {
+                  if tp.crafted == Some("issuance_time_not_an_integer") {
+                    // the claims are ill-typed (refused when they are read) or denote a time in the future; the
+                    // supplied document may be the wrong one on top: any of the false conditions may be named
+                    want = Some(if iss != sup.did {
+                      "IssuanceDate|PresentationStructure|DocumentMismatch"
+                    } else {
+                      "IssuanceDate|PresentationStructure"
+                    });
+                    label = "issuance_time_ill_typed_or_in_the_future";
+                    ctx::stat("false.p.issuance_time_ill_typed");
+                  } else if !is_did(iss) {
                     want = Some("SignerUrl");
                     label = "issuer_not_did";
                     ctx::stat("false.p.issuer_not_did");
@@ -1588,7 +1619,7 @@ fn validate_presentation(w: &mut World, step: usize) {
           let ok = if mutated {
             got.len() == 1 && ["PresentationJwsError", "PresentationStructure"].contains(&got[0])
           } else {
-            got == vec![wv]
+            got.len() == 1 && wv.split('|').any(|w| w == got[0])
           };
           if !ok {
             ctx::violation(
